@@ -479,6 +479,9 @@ pub fn run(t: &mut Tape, tier: Tier, out: &mut RunOut) {
         });
         if let Err(m) = res {
             out.ev(format_args!("PANIC in machine {}", which));
+            // a panic of a documented operation on in-domain operands breaks C19 (totality) whatever the build,
+            // and shows up as a transcript difference (C18) if only one build panics
+            out.violate("C19", format!("apitrace/panic:machine{}", which), format!("API trace machine {} panicked: {}", which, m));
             out.violate("C18", format!("apitrace/panic:machine{}", which), format!("API trace machine {} panicked: {}", which, m));
         }
         out.ops_completed += 1;
